@@ -1,8 +1,7 @@
-"""C02 flush_meta + reopen preserves every byte."""
-import seqprop
+"""C02: see DESIGN.md section 3."""
+import c10
 
 
 def run(tier, seed, replay):
-    n = 150 if tier == 'quick' else 3000
-    return seqprop.run_histories('C02', tier, seed, ('reopen',), n, 30, replay=replay,
-                                 explanation='After each history: sweep, flush_meta, snapshot of the file bytes, a second real device opened on the snapshot with other (block size, slice size, cache size) parameters, sweep again: both sweeps and both get_mapping dumps must agree.')
+    n = 60 if tier == 'quick' else 1500
+    return c10.run_foreign('C02', tier, seed, ('reopen',), n, 'Sweep, flush_meta, snapshot, reopen with other parameters, sweep: reads and get_mapping must agree.', plain_n=(90 if tier == 'quick' else 1500))
